@@ -6,6 +6,8 @@ import (
 	"io"
 	"net"
 	"os"
+	"os/signal"
+	"runtime"
 	"path/filepath"
 	"sort"
 	"strings"
@@ -520,6 +522,101 @@ func runLoop(c *Case) []string {
 			}
 			time.Sleep(2 * time.Millisecond)
 			return tail("")
+		case "scenario":
+			if a[0] == "eintr" {
+				// an untimed wait (RunPending with one timer armed) that signals keep interrupting: it must not report an
+				// error and must return only when the timer has fired
+				runtime.LockOSThread()
+				defer runtime.UnlockOSThread()
+				tid := syscall.Gettid()
+				sigc := make(chan os.Signal, 256)
+				signal.Notify(sigc, syscall.SIGUSR1)
+				defer signal.Stop(sigc)
+				t, err := sonic.NewTimer(d.ioc)
+				if err != nil {
+					panic(err)
+				}
+				fired := false
+				_ = t.ScheduleOnce(250*time.Millisecond, func() { fired = true })
+				stop := make(chan struct{})
+				go func() {
+					for {
+						select {
+						case <-stop:
+							return
+						default:
+							_ = syscall.Tgkill(syscall.Getpid(), tid, syscall.SIGUSR1)
+							time.Sleep(5 * time.Millisecond)
+						}
+					}
+				}()
+				rerr := d.ioc.RunPending()
+				close(stop)
+				ok := 0
+				if rerr == nil && fired && d.ioc.Pending() == 0 {
+					ok = 1
+				}
+				_ = t.Close()
+				return fmt.Sprintf("scn=%s ok=%d", a[0], ok)
+			}
+			// scenario hupreuse: two sockets X and A in one poll batch, X ready first, A hung up; X's handler closes A and opens a
+			// new conn B, which receives A's descriptor number and parks a read. B's read must complete exactly once when its
+			// peer writes (A's stale batch entry must not touch the descriptor number B now owns).
+			if d.ln == nil {
+				ln, err := net.Listen("tcp", "127.0.0.1:0")
+				if err != nil {
+					panic(err)
+				}
+				d.ln = ln
+			}
+			dial := func() (sonic.Conn, net.Conn) {
+				c, err := sonic.Dial(d.ioc, "tcp", d.ln.Addr().String())
+				if err != nil {
+					panic(err)
+				}
+				p, err := d.ln.Accept()
+				if err != nil {
+					panic(err)
+				}
+				return c, p
+			}
+			x, xp := dial()
+			ao, ap := dial()
+			afd := ao.RawFd()
+			var b sonic.Conn
+			var bp net.Conn
+			done := 0
+			x.AsyncRead(make([]byte, 4), func(error, int) {
+				_ = ao.Close()
+				b, bp = dial()
+				b.AsyncRead(make([]byte, 4), func(error, int) { done++ })
+			})
+			ao.AsyncRead(make([]byte, 4), func(error, int) {})
+			_, _ = xp.Write([]byte{1, 2, 3, 4})
+			time.Sleep(2 * time.Millisecond)
+			if tc, isTCP := ap.(*net.TCPConn); isTCP {
+				_ = tc.SetLinger(0) // reset: A is reported with EPOLLERR|EPOLLHUP
+			}
+			_ = ap.Close()
+			time.Sleep(2 * time.Millisecond)
+			_, _ = d.ioc.PollOne()
+			ok := 1
+			if b != nil {
+				reused := b.RawFd() == afd
+				_, _ = bp.Write([]byte{5, 6, 7, 8})
+				time.Sleep(2 * time.Millisecond)
+				for i := 0; i < 3; i++ {
+					_, _ = d.ioc.PollOne()
+				}
+				if reused && done != 1 {
+					ok = 0
+				}
+				_ = b.Close()
+				_ = bp.Close()
+			}
+			_ = x.Close()
+			_ = xp.Close()
+			return fmt.Sprintf("scn=%s ok=%d", a[0], ok)
 		case "sleep":
 			time.Sleep(time.Duration(atoi(a[0])) * time.Millisecond)
 			return tail("")
